@@ -1,8 +1,8 @@
 (* Card state, the public mutating API (add, add_plot, add_table, add_metrics,
-   add_hyperparams, select, chained select, delete, flag assignment through select)
+   add_hyperparams, add_model_plot, select, chained select, delete, flag assignment through select)
    and the interpreter of operation sequences.  Every mutation is expressed through
    the three tree primitives of Tree.v (add_path / delete_path / update_path). *)
-From Skv Require Export Tree.
+From Skv Require Export Tree ModelPlot.
 Open Scope N_scope.
 
 Record card := mkCard { data : dict ; metrics : list (pstr * pstr) }.
@@ -23,6 +23,7 @@ Inductive op :=
 | OAddTable (desc : option pstr) (fold : bool) (kvs : list (pstr * table))
 | OAddMetrics (sect : pstr) (desc : option pstr) (kvs : list (pstr * pstr)) (* metric -> str(value) *)
 | OAddHyperparams (sect : pstr) (desc : option pstr) (params : list (pstr * pstr)) (* get_params(deep=True): oracle *)
+| OAddModelPlot (sect : pstr) (desc : option pstr) (html : pstr)    (* html = str(estimator_html_repr(model)): oracle *)
 | OSelect (key : pstr)
 | OSelectChain (ks : list pstr)
 | ODelete (key : pstr)
@@ -84,6 +85,10 @@ Definition metrics_table (m : list (pstr * pstr)) : table :=
 Definition hyperparam_table (params : list (pstr * pstr)) : table :=
   [(s "Hyperparameter", map fst params); ([86; 97; 108; 117; 101], map snd params)].
 
+(* _add_model_plot: Section(title=leaf, content=...) -- a plain text section, visible, not folded *)
+Definition model_plot_section (sect : pstr) (desc : option pstr) (html : pstr) : section :=
+  Sec (leaf_title sect) (model_plot_content desc html) true false KText [].
+
 Definition set_data (c : card) (d : dict) : card := mkCard d (metrics c).
 
 Definition run_op (o : op) (c : card) : card * outcome :=
@@ -98,6 +103,8 @@ Definition run_op (o : op) (c : card) : card * outcome :=
       (mkCard (add_single sect (table_section desc false sect (metrics_table m)) (data c)) m, Done)
   | OAddHyperparams sect desc params =>
       (set_data c (add_single sect (table_section desc true sect (hyperparam_table params)) (data c)), Done)
+  | OAddModelPlot sect desc html =>
+      (set_data c (add_single sect (model_plot_section sect desc html) (data c)), Done)
   | OSelect key =>
       match card_select key (data c) with Ok x => (c, Selected x) | Raise e => (c, Failed e) end
   | OSelectChain ks =>
